@@ -71,8 +71,33 @@ def main():
     ctx.facts_dir = fdir
     ctx.tree_hash = th
     mod.run(ctx)
-    if tier == "thorough" and hasattr(mod, "run_thorough"):
-        mod.run_thorough(ctx)
+    thorough = {}
+    if tier == "thorough":
+        if hasattr(mod, "run_thorough"):
+            mod.run_thorough(ctx)
+        if getattr(mod, "RELEASE_RULES", None):
+            # second extraction under the release flags the property fixes (overflow checks off, debug assertions off)
+            try:
+                rdir, _th, rinfo = extract.extract("release")
+                RF = Facts(rdir)
+                rctx = Ctx(RF, prop, tier)
+                mod.RELEASE_RULES(rctx)
+                for o in rctx.obls:
+                    o["id"] = "release:" + o["id"]
+                    o["key"] = o["key"].replace("|", "|release:", 1) if False else o["key"]
+                ctx.obls.extend(rctx.obls)
+                thorough["release_extraction"] = rinfo
+                thorough["release_stats"] = dict(rctx.stats)
+            except extract.BuildError as e:
+                ctx.record("release-extraction", "R4", None, "release-flag extraction", "anchor-lost", [], [str(e)[-400:]], key_detail="release-build")
+        if not os.environ.get("VERIF_NO_MUTANTS") and os.environ.get("VERIF_REPO", "/repo") == "/repo":
+            import subprocess
+            mp = subprocess.run([sys.executable, os.path.join(VERIF, "mutants", "run.py"), "--prop", prop], stdout=subprocess.PIPE, stderr=subprocess.STDOUT, text=True)
+            last = [l for l in mp.stdout.splitlines() if l.startswith("{")]
+            if last:
+                thorough["mutants"] = json.loads(last[-1])
+                for sname in thorough["mutants"].get("survived", []):
+                    sys.stderr.write("checker self-test: mutant %s SURVIVED (measures the checker, not the repository)\n" % sname)
     kf = known_findings()
     known = {k["key"]: k for k in kf.get("known", []) if k.get("property") == prop}
     viols, knowns = [], []
@@ -135,6 +160,7 @@ def main():
             "known_findings": [o["key"] for o in knowns],
             "violation_keys": [o["key"] for o in viols],
             "notes": ctx.notes,
+            "thorough": thorough,
         },
         "assumptions": getattr(mod, "ASSUMPTIONS", []) + [
             "rustc MIR (mir-opt-level=0) is a faithful control-flow abstraction of the source",
